@@ -408,3 +408,139 @@ impl<F: Flavor> System for Sys<F> {
 
     fn finish(self, _out: &mut StepOut) {}
 }
+
+
+// ---------------------------------------------------------------------------------------------
+// Value sweep for `delay(d)`: "delay(d) means deadline(now+d), saturating". The fixpoint systems
+// use a handful of delays; here every whole-millisecond duration up to 20 s, the same with a
+// sub-millisecond remainder, and the neighbourhood of every power of two up to and beyond 2^64 ms
+// is converted by the real `delay()` on a fresh service and compared with the exact integer
+// deadline; for each duration the future must not be woken one tick before the deadline and
+// must be woken at it. One operation `Block(b)` sweeps one block of the domain.
+
+#[derive(Clone, Copy, Debug, PartialEq)]
+pub enum SweepOp {
+    Block(u8),
+}
+
+pub struct Sweep<F: Flavor> {
+    ran: Option<u8>,
+    _f: std::marker::PhantomData<F>,
+}
+
+fn sweep_domain(block: u8) -> Vec<Duration> {
+    let mut v = vec![];
+    match block {
+        0 => (0..=5000u64).for_each(|ms| v.push(Duration::from_millis(ms))),
+        1 => (5001..=20000u64).for_each(|ms| v.push(Duration::from_millis(ms))),
+        2 => (0..=20000u64).step_by(7).for_each(|ms| {
+            v.push(Duration::new(ms / 1000, (ms % 1000) as u32 * 1_000_000 + 999_999));
+            v.push(Duration::new(ms / 1000, (ms % 1000) as u32 * 1_000_000 + 1));
+        }),
+        _ => {
+            for k in 0..=70u32 {
+                let base: u128 = 1u128 << k;
+                for ms in [base.saturating_sub(1), base, base + 1] {
+                    let secs = ms / 1000;
+                    if secs <= u64::MAX as u128 {
+                        v.push(Duration::new(secs as u64, (ms % 1000) as u32 * 1_000_000));
+                    }
+                }
+            }
+            for ms in [u64::MAX as u128 - 1, u64::MAX as u128, u64::MAX as u128 + 1, 3 * (u64::MAX as u128)] {
+                v.push(Duration::new((ms / 1000) as u64, (ms % 1000) as u32 * 1_000_000));
+            }
+            v.push(Duration::MAX);
+        }
+    }
+    v
+}
+
+impl<F: Flavor> System for Sweep<F> {
+    type Op = SweepOp;
+    fn new(_cfg: &Cfg) -> Self {
+        Sweep { ran: None, _f: std::marker::PhantomData }
+    }
+    fn enabled(&self) -> Vec<SweepOp> {
+        if self.ran.is_some() {
+            vec![]
+        } else {
+            (0..4).map(SweepOp::Block).collect()
+        }
+    }
+    fn apply(&mut self, op: SweepOp, out: &mut StepOut) {
+        let SweepOp::Block(b) = op;
+        self.ran = Some(b);
+        const WID: usize = 1;
+        let waker = harness::waker(WID);
+        let mut n = 0u32;
+        for now in [0u64, 1000, u64::MAX - 10_000] {
+            for dur in sweep_domain(b) {
+                n += 1;
+                clock().set_time(now);
+                let timer: Box<GenericTimerService<F::M>> = Box::new(GenericTimerService::new(clock()));
+                let t: &'static GenericTimerService<F::M> = unsafe { &*(&*timer as *const GenericTimerService<F::M>) };
+                let ms = std::cmp::min(dur.as_millis(), u64::MAX as u128) as u64;
+                let deadline = now.saturating_add(ms);
+                let mut f = match lib(|| F::delay(t, dur)) {
+                    Ok(f) => Box::pin(f),
+                    Err(p) => {
+                        out.v("C01", "panic", format!("delay({:?}) panicked: {}", dur, p));
+                        return;
+                    }
+                };
+                let r = match lib(|| f.as_mut().poll(&mut Context::from_waker(&waker))) {
+                    Ok(r) => r,
+                    Err(p) => {
+                        out.v("C01", "panic", format!("first poll of delay({:?}) panicked: {}", dur, p));
+                        std::mem::forget(f);
+                        std::mem::forget(timer);
+                        return;
+                    }
+                };
+                let _ = harness::take_alloc_counts();
+                if deadline <= now {
+                    if r.is_pending() {
+                        out.v("C15", "delay-value", format!("delay({:?}) at clock {} is due at once but its first poll is Pending", dur, now));
+                        return;
+                    }
+                    continue;
+                }
+                if r.is_ready() {
+                    out.v("C15", "delay-value", format!("delay({:?}) at clock {} completed at its first poll, {} ms early", dur, now, ms));
+                    return;
+                }
+                let ne = t.next_expiration();
+                if ne != Some(deadline) {
+                    out.v("C15", "delay-value", format!("delay({:?}) at clock {}: next_expiration()={:?}, but delay(d) means deadline(now+d) = {}", dur, now, ne, deadline));
+                    return;
+                }
+                let w0 = harness::wakes(WID);
+                clock().set_time(deadline - 1);
+                t.check_expirations();
+                if harness::wakes(WID) != w0 || f.is_terminated() {
+                    out.v("C15", "delay-value", format!("delay({:?}) at clock {}: woken at clock {}, one tick before its deadline {}", dur, now, deadline - 1, deadline));
+                    return;
+                }
+                clock().set_time(deadline);
+                t.check_expirations();
+                if harness::wakes(WID) == w0 {
+                    out.v("C15", "delay-value", format!("delay({:?}) at clock {}: not woken by check_expirations() at its deadline {}", dur, now, deadline));
+                    return;
+                }
+                if f.as_mut().poll(&mut Context::from_waker(&waker)).is_pending() {
+                    out.v("C15", "delay-value", format!("delay({:?}) at clock {}: still pending at its deadline {}", dur, now, deadline));
+                    return;
+                }
+                drop(f);
+                drop(timer);
+            }
+        }
+        let _ = harness::take_alloc_counts();
+        out.o(&format!("block {} ok ({} durations x clocks)", b, n));
+    }
+    fn fingerprint(&self) -> Vec<u8> {
+        vec![self.ran.map_or(255, |b| b)]
+    }
+    fn finish(self, _out: &mut StepOut) {}
+}
